@@ -104,6 +104,64 @@ class ALazy:
         return self._it
 
 
+class AGen:
+    """a generator function call: the body runs in a helper thread with strict hand-off, so effects interleave with the consumer exactly as in the host"""
+
+    def __init__(self, interp, node, env):
+        import threading
+        self.interp, self.node, self.env = interp, node, env
+        self.started = False
+        self.done = False
+        self.to_gen = threading.Semaphore(0)
+        self.to_main = threading.Semaphore(0)
+        self.item = None
+        self.error = None
+        self.thread = None
+
+    def _run(self):
+        self.to_gen.acquire()
+        try:
+            self.interp._gen_stack.append(self)
+            try:
+                self.interp.exec_block(self.node.body, self.env)
+            except ReturnSig:
+                pass
+        except BaseException as exc:        # RaiseSig / Unrecognised: re-raised in the consumer
+            self.error = exc
+        finally:
+            if self.interp._gen_stack and self.interp._gen_stack[-1] is self:
+                self.interp._gen_stack.pop()
+            self.done = True
+            self.to_main.release()
+
+    def next(self):
+        """-> (True, value) | (False, None)"""
+        import threading
+        if self.done:
+            return False, None
+        if not self.started:
+            self.started = True
+            self.thread = threading.Thread(target=self._run, daemon=True)
+            self.thread.start()
+        saved = list(self.interp._gen_stack)
+        self.to_gen.release()
+        self.to_main.acquire()
+        self.interp._gen_stack[:] = saved
+        if self.error is not None:
+            err, self.error = self.error, None
+            raise err
+        if self.done:
+            return False, None
+        return True, self.item
+
+    def yield_(self, value):
+        self.item = value
+        self.interp._gen_stack.pop()
+        self.to_main.release()
+        self.to_gen.acquire()
+        self.interp._gen_stack.append(self)
+
+
 class ACount:
     """itertools.count(start, step)"""
 
@@ -159,6 +217,7 @@ class Interp:
         self.depth = 0
         self.max_depth = 4
         self._lazy = {}
+        self._gen_stack = []
         self.oracles = {}     # callee name -> fn(args, node): summaries of functions that are not interpreted
         self.fail_parse = None   # optional oracle: parse_expression(x) raises when fail_parse(x) is true
         self.trace = []      # (event, detail) e.g. stack operations for C01.S
@@ -245,6 +304,8 @@ class Interp:
             raise ReturnSig(self.eval(s.value, env) if s.value is not None else None)
         elif isinstance(s, ast.Pass):
             return
+        elif isinstance(s, ast.FunctionDef):
+            env[s.name] = ('closure-def', s, env)
         elif isinstance(s, ast.Delete):
             for t in s.targets:
                 if not isinstance(t, ast.Subscript):
@@ -276,7 +337,7 @@ class Interp:
                         self.bad(s, 'del on a non-container')
         elif isinstance(s, ast.For):
             it = self.eval(s.iter, env)
-            seq = self.iterate(it, s.iter)
+            seq = self.py_iter(it, s.iter) if isinstance(it, (AGen, ALazy, ACount)) else self.iterate(it, s.iter)
             for item in seq:
                 self.assign(s.target, item, env)
                 try:
@@ -349,9 +410,9 @@ class Interp:
             return bool(v.d)
         if isinstance(v, AList):
             return bool(v.l)
-        if isinstance(v, (AMatch, ALine, ARegex, ModuleFunc, APart, AIter, ACount, ALazy)):
+        if isinstance(v, (AMatch, ALine, ARegex, ModuleFunc, APart, AIter, ACount, ALazy, AGen)):
             return True
-        if isinstance(v, tuple) and v and v[0] in ('bound', 'builtin', 'extern', 'hostattr', 'partial', 'closure', 'class'):
+        if isinstance(v, tuple) and v and v[0] in ('bound', 'builtin', 'extern', 'hostattr', 'partial', 'closure', 'class', 'closure-def', 'cmpkey', 'itemgetter'):
             return True
         if isinstance(v, Sym):
             if v.kind in ('group', 'parsed', 'unescaped', 'arglist', 'line', 'fstr'):
@@ -361,6 +422,8 @@ class Interp:
         raise Unrecognised(self.rule, f'truthiness of {v!r} is not decidable' + (f' at {norm(node)[:60]}' if node is not None else ''), None)
 
     def iterate(self, v, node):
+        if isinstance(v, AGen):
+            return list(self.py_iter(v, node))
         if isinstance(v, ALazy):
             out = []
             for x in v.iterator():
@@ -386,6 +449,14 @@ class Interp:
 
     def py_iter(self, v, node):
         """a python iterator over an abstract iterable, lazily where the iterable is lazy"""
+        if isinstance(v, AGen):
+            def gen0():
+                while True:
+                    ok, item = v.next()
+                    if not ok:
+                        return
+                    yield item
+            return gen0()
         if isinstance(v, ALazy):
             return v.iterator()
         if isinstance(v, ACount):
@@ -549,6 +620,8 @@ class Interp:
                     raise RaiseSig('TypeError', ('slice indices must be integers',), e)
                 if isinstance(base, AList) and all(x is None or isinstance(x, int) for x in (lo, hi)):
                     return AList(base.l[lo:hi])
+                if isinstance(base, ALine) and lo in (None, 0) and isinstance(hi, Sym) and hi.kind == 'start' and hi.args[-1] == base.lid and base.cont:
+                    return APart(base)          # the physical line up to its continuation marker
                 r = self.slice_hook(base, lo, hi, e)
                 if r is not NotImplemented:
                     return r
@@ -618,6 +691,11 @@ class Interp:
             return out if isinstance(e, ast.GeneratorExp) else AList(out)
         if isinstance(e, ast.Lambda):
             return ('closure', e, dict(env))
+        if isinstance(e, ast.Yield):
+            if not self._gen_stack:
+                self.bad(e, 'yield outside a generator call')
+            self._gen_stack[-1].yield_(self.eval(e.value, env) if e.value is not None else None)
+            return None
         if isinstance(e, ast.DictComp):
             pairs = []
             fake = ast.GeneratorExp(elt=ast.Tuple(elts=[e.key, e.value], ctx=ast.Load()), generators=e.generators)
@@ -723,7 +801,7 @@ class Interp:
             return self.call_function(fn.node, args, e, kwargs)
         if isinstance(fn, tuple) and fn and fn[0] == 'class':
             return Sym('instance', fn[1], tuple(args))
-        if isinstance(fn, tuple) and fn and fn[0] in ('closure', 'partial', 'bound'):
+        if isinstance(fn, tuple) and fn and fn[0] in ('closure', 'partial', 'bound', 'closure-def'):
             return self.apply(fn, args, e)
         r = self.call_value_hook(fn, args, e)
         if r is not NotImplemented:
@@ -921,6 +999,23 @@ class Interp:
         r = self.call_value_hook(fn, list(args), at)
         if r is not NotImplemented:
             return r
+        if isinstance(fn, tuple) and fn and fn[0] == 'closure-def':
+            node, cenv = fn[1], fn[2]
+            params = [a.arg for a in node.args.args]
+            if len(params) != len(args) or node.args.vararg or node.args.kwarg or node.args.defaults:
+                self.bad(at, 'nested function signature outside the subset')
+            env = dict(cenv)           # reads of enclosing names; rebinding enclosing names is outside the subset
+            env.update(zip(params, args))
+            if _is_generator(node):
+                return AGen(self, node, env)
+            self.depth += 1
+            try:
+                self.exec_block(node.body, env)
+            except ReturnSig as r:
+                return r.value
+            finally:
+                self.depth -= 1
+            return None
         if isinstance(fn, tuple) and fn and fn[0] == 'closure':
             lam, cenv = fn[1], fn[2]
             params = [a.arg for a in lam.args.args]
@@ -948,12 +1043,23 @@ class Interp:
                 if isinstance(line, ALine):
                     return AMatch(base.name, line) if (line.regex == base.name or base.name in line.also) else None
                 return Sym('match', base.name, line)
+            if m == 'search' and args and isinstance(args[0], ALine):
+                # only the continuation-marker regex (backslash, blanks, end) may be searched in an abstract line: the line says whether it ends in one
+                try:
+                    pat = self.mod.regexes()[base.name].pattern
+                except Exception:
+                    pat = ''
+                if pat.startswith('\\\\') and pat.endswith('$'):
+                    return AMatch(base.name, args[0]) if args[0].cont else None
+                raise Unrecognised(self.rule, f'search() of {base.name} in an abstract line', self.mod.rel)
             if m == 'sub':
                 subj = args[1]
                 if isinstance(subj, ALine):
                     return APart(subj) if subj.cont else subj
                 return Sym('unescaped', subj)
             if m == 'split':
+                if isinstance(args[0], ALine):
+                    return AList([args[0]])         # the line-split regex applied to one abstract physical line
                 if isinstance(args[0], Sym) and args[0].kind == 'group':
                     return Sym('arglist', args[0])
                 return Sym('split', base.name, args[0])
@@ -1069,11 +1175,18 @@ class Interp:
                 return len(v)
             return Sym('len', v)
         if name == 'iter':
-            if isinstance(args[0], (ALazy, ACount)):
+            if isinstance(args[0], (ALazy, ACount, AGen)):
                 return args[0]
             return args[0] if isinstance(args[0], AIter) else AIter(self.iterate(args[0], e))
         if name == 'next':
             src = args[0]
+            if isinstance(src, AGen):
+                ok, item = src.next()
+                if ok:
+                    return item
+                if len(args) > 1:
+                    return args[1]
+                raise RaiseSig('StopIteration', (), e)
             if isinstance(src, ALazy):
                 try:
                     return next(src.iterator())
@@ -1237,6 +1350,8 @@ class Interp:
                 if di < 0:
                     self.bad(at, 'missing argument')
                 env[p] = self.eval(defaults[di], {})
+        if _is_generator(node):
+            return AGen(self, node, env)
         self.depth += 1
         try:
             self.exec_block(node.body, env)
@@ -1245,6 +1360,25 @@ class Interp:
         finally:
             self.depth -= 1
         return None
+
+
+_GEN_CACHE = {}
+
+
+def _is_generator(node):
+    if id(node) not in _GEN_CACHE:
+        found = False
+        stack = list(node.body)
+        while stack:
+            n = stack.pop()
+            if isinstance(n, (ast.Yield, ast.YieldFrom)):
+                found = True
+                break
+            if isinstance(n, (ast.FunctionDef, ast.Lambda, ast.ClassDef)):
+                continue
+            stack.extend(ast.iter_child_nodes(n))
+        _GEN_CACHE[id(node)] = found
+    return _GEN_CACHE[id(node)]
 
 
 def reify(v, seen=None):
